@@ -42,6 +42,13 @@ Next ==
     \/ Reset
     \/ ResetToStart
     \/ DropArena
+    \/ AllocHuge(1)
+    \/ \E id \in LiveIds : Realloc(id, "none")
+    \/ EnterClaim
+    \/ ExitClaim("return")
+    \/ \E lvl \in ClaimLevels, op \in {"alloc", "grow", "dealloc", "shrink"}, id \in LiveIds \cup {0}, l \in Layouts : ClaimedOp(lvl, op, id, l)
+    \/ \E n \in {1, 8, 16}, sc \in Bools : EnterAligned(n, sc)
+    \/ ExitAligned("return")
 
 Spec == Init /\ [][Next]_vars
 
@@ -67,6 +74,19 @@ SimStep ==
     \/ Reset
     \/ ResetToStart
     \/ (nops >= MaxOps - 3 /\ DropArena)
+    \/ AllocHuge(R({1, 8, 64}))
+    \/ (LiveIds # {} /\ Realloc(R(LiveIds), R({"none", "none", "wd", "ws"})))
+    \/ (last # 0 /\ last \in LiveIds /\ Realloc(last, "none"))
+    \/ EnterClaim
+    \/ ExitClaim(R({"return", "unwind"}))
+    \/ (ClaimLevels # {} /\ ClaimedOp(R(ClaimLevels), R({"alloc", "reserve", "stats", "claim"}), 0, R(Layouts)))
+    \/ (ClaimLevels # {} /\ LiveIds # {} /\ ClaimedOp(R(ClaimLevels), R({"grow", "dealloc", "shrink"}), R(LiveIds), R(Layouts)))
+    \/ EnterAligned(R({1, 2, 4, 8, 16}), R(Bools))
+    \/ ExitAligned(R({"return", "unwind"}))
+    \/ (CanFail /\ Alloc(R(Layouts), FALSE, TRUE))
+    \/ (CanFail /\ Reserve(R({600, 3000}), TRUE))
+    \/ (CanFail /\ LiveIds # {} /\ LET id == R(LiveIds) IN
+            LET ls == {l \in Layouts : l.sz >= blocks[id].sz} IN ls # {} /\ Grow(id, R(ls), FALSE, "none", TRUE))
 
 Finish ==
     /\ nops >= 0 /\ (nops >= MaxOps \/ dropped)
